@@ -91,6 +91,15 @@ UNSUPPORTED = {
                     "LOCK TABLE t IN EXCLUSIVE MODE;", "REINDEX TABLE t;", "OPTIMIZE TABLE t;", "DROP INDEX ix;", "DROP SCHEMA s;",
                     "DROP DATABASE d;", "DROP SEQUENCE q;", "ALTER INDEX ix RENAME TO iy;", "ALTER SEQUENCE q RESTART WITH 1;",
                     "CREATE EXTENSION hstore;"],
+    # statements the grammar does not know that carry a word which switches a lexer mode on (CHECK, DEFAULT, CONSTRAINT, PRIMARY, FOREIGN, TYPE,
+    # DOMAIN, COMMENT, RENAME ...) without the continuation the mode expects (calibrated: [] when silent, DDLParserError when loud)
+    "mode_word_without_continuation": ["ALTER TABLE orders DROP CHECK chk_amount;", "ALTER TABLE orders CHECK CONSTRAINT fk_orders;",
+                                       "CREATE VIEW big_orders AS SELECT id FROM orders WITH CHECK OPTION;", "ALTER TABLE t NOCHECK CONSTRAINT ALL;",
+                                       "ALTER TABLE t DROP CONSTRAINT df_x;", "ALTER TABLE t ALTER COLUMN a DROP DEFAULT;",
+                                       "ALTER DEFAULT PRIVILEGES IN SCHEMA s REVOKE ALL ON TABLES FROM joe;", "CREATE INDEX ix ON other_t (a) WHERE a IS NOT NULL;",
+                                       "ALTER TABLE t DROP PRIMARY KEY;", "ALTER TABLE t DROP FOREIGN KEY fk1;", "COMMENT ON COLUMN t.a IS 'references x';",
+                                       "ALTER TABLE t ENABLE ROW LEVEL SECURITY;", "ALTER TABLE t DISABLE KEYS;", "DROP TYPE ty;", "DROP DOMAIN d;",
+                                       "ALTER TYPE ty ADD VALUE 'c';", "ALTER TABLE t RENAME TO t2;", "ALTER TABLE t OWNER TO joe;"],
     # an unsupported statement over several lines whose LAST line starts with one of the ignored-line words
     "multiline_ending_in_ignored_line": ["WITH x AS (SELECT 1 AS id)\nINSERT INTO t SELECT id FROM x;", "EXPLAIN\nDELETE FROM t WHERE id = 1;",
                                          "EXPLAIN ANALYZE\nINSERT INTO t VALUES (1);", "WITH y AS (SELECT 2)\nDELETE FROM t;",
